@@ -165,3 +165,53 @@ def outcome_class(out):
 def atoms_on(paths, term_pred):
     """restrict each path to its atoms whose term satisfies term_pred; returns list of (atoms, outcome)"""
     return [([a for a in atoms if term_pred(a[0])], out) for atoms, out in paths]
+
+
+# ---------------------------------------------------------------- who may decide on a rounding mode
+MODE_DISPATCH_ALLOWED = {
+    'RoundingMode::round_pair': 'its complete table is checked against the mode definitions (C06)',
+    'RoundingMode::needs_trailing_zeros': 'cross-checked against round_pair (C06/C11)',
+    'BigDecimal::inverse_with_context': 'its (sign, mode) mirror table is checked exactly (C12)',
+}
+
+
+def mode_dispatch(rep, F, rule='MODE-DISPATCH'):
+    """layering rule: a rounding decision is taken only inside the table-checked functions; any other
+    function that branches on a RoundingMode value (match / == on the mode) carries its own,
+    unchecked, mode table"""
+    from dataflow import Defs
+    from facts import op_local, strip_lt, cdef
+    n = 0
+    hits = []
+    for fn in F.real_fns():
+        if fn.trait and (fn.self_ty or '').endswith('RoundingMode') and fn.trait.startswith('std::'):
+            continue          # derived Debug / PartialEq / Hash / Clone on the enum itself
+        defs = None
+        found = None
+        for bid in sorted(fn.live_blocks()):
+            t = fn.blocks[bid]['term']
+            if t['t'] == 'switch':
+                l = op_local(t['on'])
+                if l is None:
+                    continue
+                defs = defs or Defs(fn)
+                for dd in defs.defs.get(l, []):
+                    if dd[0] == 'assign' and dd[2]['rv']['r'] == 'discr':
+                        pl = dd[2]['rv']['pl']
+                        if 'RoundingMode' in strip_lt(pl['ty']) and 'Option' not in strip_lt(pl['ty']):
+                            found = ('match on the mode', t.get('loc', {}).get('line', fn.line))
+            elif t['t'] == 'call' and re.search(r'cmp::PartialEq::(eq|ne)$', cdef(t)):
+                tys = [strip_lt(a.get('pl', {}).get('ty') or a.get('ty') or '') for a in t['args']]
+                if any(ty.lstrip('&').endswith('RoundingMode') for ty in tys):
+                    found = ('== on the mode', t['loc']['line'])
+        if found:
+            n += 1
+            key = fn.key
+            base = re.sub(r'::\{closure#\d+\}.*$', '', key)
+            if base in MODE_DISPATCH_ALLOWED:
+                rep.ok(rule, key, 'dispatches on the rounding mode; allowed: %s' % MODE_DISPATCH_ALLOWED[base], fn.where(found[1]))
+            else:
+                hits.append(fn)
+                rep.violation(rule, key, 'this function takes its own rounding decision (%s) instead of delegating to RoundingMode::round_pair, whose table is the only one checked against the mode definitions' % found[0], fn.where(found[1]))
+    rep.add_functions([f.name for f in hits])
+    return n
